@@ -23,6 +23,7 @@
    membership; the order of the result comes from the list it appends to. *)
 From HT Require Import Model.Str Model.Tree Model.Render Model.Deps Model.HeadContent
      Spec.StripMeta Proofs.HeadContentProofs.
+From HT Require Model.Heap Model.HeapOps Proofs.HeapProofs Proofs.TagifyProofs.
 
 (* head_content( *args ) is: render TagList( *args ) with the defaults (indent 0, newline,
    add_ws True, escaping on); if that raises (an un-expanded tagifiable object) so does
@@ -107,6 +108,31 @@ Print Assumptions C18_metadata_invisible.
 
 (* ---- non-vacuity -------------------------------------------------------------------- *)
 (* the identity is an injective function str -> str: the premise of C18_distinct* can be met *)
+(* Independence of history, at the level of object graphs (heap layer of C08): in ANY history
+   of the read-only operations (tagify, render, get_html_string, get_dependencies, copy,
+   HTMLDocument.render, ...) started in a well-formed heap, every operation's outcome is the
+   pure function of the tree its receiver denoted in the ORIGINAL heap -- hence the outcome it
+   has when run first, alone: rendering A before B never changes B.  (The models hold no
+   module-level state, and no operation stores into a pre-existing object.) *)
+Theorem C18_history :
+  forall upd mk resolve dep_script dep_tags fuel os h h' rs,
+    (forall k p, forallb HT.Proofs.TagifyProofs.no_custom (dep_tags k p) = true) ->
+    HT.Model.Heap.wf h ->
+    HT.Model.HeapOps.run_ops upd mk resolve dep_script dep_tags fuel h os = Some (h', rs) ->
+    (exists ext, h' = h ++ ext)
+    /\ (forall f v, HT.Model.Heap.val_ok (length h) v ->
+                    HT.Model.Heap.abs_val f h' v = HT.Model.Heap.abs_val f h v)
+    /\ Forall2 (fun o r =>
+                  forall f rt, HT.Model.Heap.abs_root f h (HT.Model.HeapOps.op_target o) = Some rt ->
+                    exists out,
+                      HT.Model.HeapOps.pure_op upd mk resolve dep_script dep_tags o rt = Some out
+                      /\ (exists f', HT.Model.HeapOps.observe f' h' r = Some out)
+                      /\ forall h1 r1,
+                          HT.Model.HeapOps.run_op upd mk resolve dep_script dep_tags fuel h o = Some (h1, r1) ->
+                          exists f1, HT.Model.HeapOps.observe f1 h1 r1 = Some out) os rs.
+Proof. exact HT.Proofs.HeapProofs.c08_replay_all. Qed.
+Print Assumptions C18_history.
+
 Example C18_example_injective : forall x y : str, (fun s : str => s) x = (fun s => s) y -> x = y.
 Proof. intros x y E. exact E. Qed.
 
